@@ -650,7 +650,9 @@ def run_all(rep: Report, T: dict, server, stats: Counter) -> None:
     traces = []
     for i, walk in enumerate(behaviours):
         cfg = W.make_config(rng, styles[i % 3])
-        trace, _done, _unf = exec_walk((cfg, server, rng), walk, stop_on_unfired=False)
+        # a planned fault that does not fire ends the behaviour (the rest was planned for the
+        # state after the failure)
+        trace, _done, _unf = exec_walk((cfg, server, rng), walk, stop_on_unfired=True)
         traces.append(trace)
     verdicts = validate(rep, traces, "c11-sim", stats)
     for tr_, v in zip(traces, verdicts):
@@ -694,7 +696,9 @@ def run_all(rep: Report, T: dict, server, stats: Counter) -> None:
     missing = [s for s in W.STEPS if not stats.get("faultstep:" + s)]
     if missing:
         problems.append(f"no injected failure ever fired at step(s) {missing}")
-    for need in ("pairs", "hits_expected", "hits_observed", "op:draw", "open:url:ok:ok",
+    if stats.get("hits_expected") and not stats.get("hits_observed"):
+        rep.notes.append("the cached iterators never reused a stored frame (speed only, no clause)")
+    for need in ("pairs", "hits_expected", "op:draw", "open:url:ok:ok",
                  "open:url:404:URLNotFoundError", "open:url:notImage:UnidentifiedImageError",
                  "open:url:ctorFails:ValueError", "open:pil:ok:ok"):
         if not stats.get(need):
